@@ -229,10 +229,8 @@ struct Machine {
             if (!p) {
                 bool u = false; with(v, [&](auto& a) { u = a.unique(); });
                 if (u && pbad.empty()) pbad = "unique() on an empty handle";
-#ifdef C12_EMPTY_USE_COUNT
-                size_t uc0 = 1; with(v, [&](auto& a) { uc0 = a.use_count(); });
+                size_t uc0 = 1; with(v, [&](auto& a) { uc0 = a.use_count(); });       // an empty handle has no owners (87f867d)
                 if (uc0 != 0 && pbad.empty()) pbad = "use_count() of an empty handle is not 0";
-#endif
                 o << '0';
                 continue;
             }
